@@ -23,8 +23,8 @@ pub struct Func {
     pub uses: Vec<usize>,
     /// indices of helper functions called (only lower indices: no recursion)
     pub calls: Vec<usize>,
-    /// writes the static global `s_value`
-    pub writes_static: bool,
+    /// indices of the static globals `s_value<k>` the function reads and writes
+    pub statics: Vec<usize>,
 }
 
 #[derive(Clone, Copy, Debug, PartialEq, Eq)]
@@ -53,6 +53,8 @@ pub struct Pipe {
 
 #[derive(Clone, Debug, PartialEq)]
 pub struct Program {
+    /// number of `static int s_value<k>` globals (threaded through functions as parameters on Metal)
+    pub nstatics: usize,
     pub resources: Vec<Resource>,
     pub helpers: Vec<Func>,
     pub entries: Vec<Entry>,
@@ -114,10 +116,11 @@ pub fn gen_program(rng: &mut Rng, opts: &GenOpts) -> Program {
             bindless,
         });
     }
+    let nstatics = rng.below(5) as usize;
     let nh = rng.below(opts.max_helpers + 1) as usize;
     let mut helpers: Vec<Func> = Vec::new();
     for i in 0..nh {
-        let f = gen_func(rng, format!("helper{}", i), nres, i);
+        let f = gen_func(rng, format!("helper{}", i), nres, i, nstatics);
         helpers.push(f);
     }
     let np = rng.below(opts.max_pipes + 1) as usize;
@@ -157,7 +160,7 @@ pub fn gen_program(rng: &mut Rng, opts: &GenOpts) -> Program {
                 "Mesh" => if kind == PipeKind::TaskMesh { "mst" } else { "ms" },
                 _ => "ts",
             };
-            let func = gen_func(rng, format!("{}_{}", prefix, k), nres, nh);
+            let func = gen_func(rng, format!("{}_{}", prefix, k), nres, nh, nstatics);
             let threads = match *st {
                 "Compute" => Some((1 << rng.below(4) as u32, 1 << rng.below(3) as u32, 1)),
                 "Mesh" | "Task" => Some((64, 1, 1)),
@@ -173,10 +176,10 @@ pub fn gen_program(rng: &mut Rng, opts: &GenOpts) -> Program {
             default_group: if rng.chance(1, 3) { Some(rng.below(3) as u32) } else { None },
         });
     }
-    Program { resources, helpers, entries, pipes }
+    Program { nstatics, resources, helpers, entries, pipes }
 }
 
-fn gen_func(rng: &mut Rng, name: String, nres: usize, nhelpers_before: usize) -> Func {
+fn gen_func(rng: &mut Rng, name: String, nres: usize, nhelpers_before: usize, nstatics: usize) -> Func {
     let mut uses = Vec::new();
     for r in 0..nres {
         if rng.chance(1, 3) {
@@ -189,7 +192,13 @@ fn gen_func(rng: &mut Rng, name: String, nres: usize, nhelpers_before: usize) ->
             calls.push(h);
         }
     }
-    Func { name, uses, calls, writes_static: rng.chance(1, 3) }
+    let mut statics = Vec::new();
+    for k in 0..nstatics {
+        if rng.chance(1, 2) {
+            statics.push(k);
+        }
+    }
+    Func { name, uses, calls, statics }
 }
 
 fn body(p: &Program, f: &Func) -> String {
@@ -207,8 +216,8 @@ fn body(p: &Program, f: &Func) -> String {
     for h in &f.calls {
         s.push_str(&format!("    {}();\n", p.helpers[*h].name));
     }
-    if f.writes_static {
-        s.push_str("    s_value = s_value + 1;\n");
+    for k in &f.statics {
+        s.push_str(&format!("    s_value{} = s_value{} + 1;\n", k, k));
     }
     s
 }
@@ -216,7 +225,10 @@ fn body(p: &Program, f: &Func) -> String {
 /// Render the program; `keep` selects which pipeline *definitions* are written (all functions stay)
 pub fn render(p: &Program, keep: &dyn Fn(usize) -> bool) -> String {
     let mut s = String::new();
-    s.push_str("struct CbS { float4 v; };\nstatic int s_value = 0;\n");
+    s.push_str("struct CbS { float4 v; };\n");
+    for k in 0..p.nstatics {
+        s.push_str(&format!("static int s_value{} = 0;\n", k));
+    }
     s.push_str("struct MeshVertex { float4 position : SV_Position; };\nstruct TaskPayload { uint start_location; };\ngroupshared TaskPayload lds_payload;\n");
     for r in &p.resources {
         if r.bindless {
